@@ -30,7 +30,7 @@ TECHNIQUE = "property-based testing (Hypothesis): differential (caches off/on) +
 
 
 def cases(tier):
-    return 2000 if tier == "quick" else 160000
+    return 2000 if tier == "quick" else 60000
 
 
 def strategy(hazards):
